@@ -256,6 +256,18 @@ def check_kernel(G, ctx, mname, spec, sel_e, kernel, key_int, rng, eps=0.3, nste
             want_prior = prior_of_selected(mname, prop.get_choices(), spaths) - prior_of_selected(mname, ch, spaths)
             if abs(w - ((lp_new - lp_old) - want_prior)) > 2e-3 * (1 + abs(w)):
                 ctx.property_failure(None, f"mh: regenerate weight {w} is not the MH ratio {(lp_new - lp_old) - want_prior} for the regenerate-from-prior proposal", case)
+            # the proposal LAW: every selected site of these targets has only selected sites or arguments as parents, so the regenerate-from-
+            # prior proposal does not depend on the current state - from a second current trace, under the same key, the proposed values of the
+            # selected addresses must be the same (a step regenerated against the OLD value of a selected parent keeps the weight formula
+            # intact and is invisible to it)
+            tr_b, _ = G.seed(gf.generate)(jr.key(key_int + 9000), constraints, *args)
+            prop_b, _, _ = G.seed(gf.regenerate)(key, tr_b, sel, *args)
+            for pth in spaths:
+                va, vb = np.asarray(tree_get(prop.get_choices(), pth), dtype=np.float64), np.asarray(tree_get(prop_b.get_choices(), pth), dtype=np.float64)
+                if va.shape != vb.shape or not np.allclose(va, vb, rtol=1e-5, atol=1e-6):
+                    ctx.property_failure(None, f"mh: the proposal for {'/'.join(pth)} depends on the CURRENT state ({va.tolist()} vs {vb.tolist()} from two current traces under one key) "
+                                         "although all parents of the selected sites are selected: the sites were not regenerated from the prior given the NEW parent values", {**case, "address": list(pth)})
+                    break
             thresholds = [1e-6, 0.9999] + ([math.exp(w) * 0.98, min(0.99999, math.exp(w) * 1.02)] if w < -1e-3 else [])
             for u in thresholds:
                 su.fixed = u
